@@ -11,6 +11,10 @@ name[section] EQU inside sections), the temporaries themselves are defined by la
 that define nothing (PUSHV/POPV, an inner SECTION) lie inside a range, and the composed names `parent.name` are read back.
 Every reference is a data word (`adr sym` on 6502 / `dw sym` on Z80) read back from the real .p through the Lean `pfile`
 reader; diagnostics come from the -E file with -n numbers.
+
+Macro-local label spaces (labels in MACRO / REPT / IRP / IRPN / IRPC / WHILE bodies, with and without {GLOBALSYMBOLS}, nested, same
+names global / in sections / in enclosing bodies, references inside, behind and with section qualifiers): c13_loc.py, run from here
+(Model/SymLoc.lean, Spec/LocScope.lean, Props/C13_Loc.lean, driver mode `c13l`).
 """
 import json
 import os
@@ -885,22 +889,29 @@ def run(args):
         elif len(samples) < 4 and c["tag"].startswith("rand") and int(k.get("swords", "0")) >= 8 and c["stats"]["sections"] >= 3:
             samples.append(dict(tag=c["tag"], flags="-U" if c["cs"] else "", source=src[:900], observed=obs[:200], verdict=ans[:260]))
     dist["generator"] = agg
+    # macro-local label spaces (c13_loc.py): constructs with local labels, Model/SymLoc + Spec/LocScope, driver mode c13l
+    from . import c13_loc
+    n_loc, loc_samples = c13_loc.run(bdir, common.rng_for(args.seed, "C13loc"), thorough, spec_fail, corr_fail, proof_problems, dist)
+    samples += loc_samples
     res.coverage = common.proof_coverage(audit, "C13", [
         "translate/tables.py gen_symconsts (error numbers from errmsg.h by a compiled dumper, LOCSYMSIGHT through the preprocessor)",
         "correspondence: real asl vs Model/Sym on generated programs (differential test)",
         "MaxSymPass = 1 (asmdef.c) and the SHA-1 suffix of $$ names (modelled as an injective pairing) are read, not regenerated"])
     res.coverage.update(
-        evaluations=len(cases), distinct_nontrivial=len([t for t in distinct if t.count(" ") >= 4]),
+        evaluations=len(cases) + n_loc, distinct_nontrivial=len([t for t in distinct if t.count(" ") >= 4]),
         rule="a case = one whole program (section tree + statements) under one -U setting; distinct by driver token list; non-trivial = at least five statements; "
              "references_checked counts the data words of accepted programs that were compared with the spec's resolution",
         samples=samples, distribution=dist)
     res.assumptions = [
         "only integer symbols; values 0..0x7fff so that a 16-bit data word shows the value",
         "label values are addresses computed as 2 bytes per data word and 1 byte per `nop` (address bookkeeping is C10's subject)",
-        "macro-local symbols (FindLocNode/EnterLocSymbol) are outside the model (C11); every program runs outside macros; the one "
-        "macro call that occurs (`name mymac`, body = one `nop`, no parameters) is modelled as label + one byte",
+        "section programs (mode c13) run outside macros; the one macro call that occurs there (`name mymac`, body = one `nop`, no "
+        "parameters) is modelled as label + one byte.  Macro-local label spaces (mode c13l, Model/SymLoc): bodies are parameter-free "
+        "(substitution is C11's subject), contain labels, data words, SET and nested constructs / macro calls, no sections, "
+        "declarations or temporary symbols; a reference in a called macro to a label of the calling body is compared with the model "
+        "but not judged by the spec (the manual is silent)",
         "ENUM/NEXTENUM with the default ENUMCONF (increment 1, no segment)"]
-    return common.conclude(res, proof_problems, spec_fail, corr_fail, len(cases))
+    return common.conclude(res, proof_problems, spec_fail, corr_fail, len(cases) + n_loc)
 
 
 def replay(args):
@@ -919,5 +930,5 @@ def replay(args):
             pf = os.path.join(wd, "r.p")
             if os.path.exists(pf):
                 print("image:", images([open(pf, "rb").read()])[0].hex())
-        print(common.driver("c13", [d["request"]])[0])
+        print(common.driver(d.get("mode", "c13"), [d["request"]])[0])
     return 0
